@@ -18,6 +18,37 @@ import (
 // Recorder collects the callback invocations the library makes.
 type Recorder struct {
 	Calls []model.Call
+	// Dest, when set, is the buffer the execution writes its main output to. Every recorded callback looks at it: what
+	// it holds at one call is the beginning of what it holds at the next and at the end (the destination only grows -
+	// nothing that is being captured shows up there, not even for a moment). DestBad describes the first departure.
+	Dest     *bytes.Buffer
+	DestBad  string
+	destPrev []byte
+	DestSeen int
+}
+
+// Snap compares the destination with what it held at the previous call.
+func (r *Recorder) Snap(where string) {
+	if r.Dest == nil || r.DestBad != "" {
+		return
+	}
+	cur := r.Dest.Bytes()
+	if len(cur) > 1<<16 {
+		cur = cur[:1<<16]
+	}
+	r.DestSeen++
+	if !bytes.HasPrefix(cur, r.destPrev) {
+		r.DestBad = fmt.Sprintf("at %s the destination held %q; at the callback before it held %q, which is not its beginning", where, clipb(cur), clipb(r.destPrev))
+		return
+	}
+	r.destPrev = append(r.destPrev[:0], cur...)
+}
+
+func clipb(b []byte) string {
+	if len(b) > 200 {
+		return string(b[:90]) + "..." + string(b[len(b)-90:])
+	}
+	return string(b)
 }
 
 func vals(args []stick.Value) []interface{} {
@@ -46,6 +77,7 @@ func (r *Recorder) Register(env *stick.Env) {
 		name := name
 		env.Functions[name] = func(ctx stick.Context, args ...stick.Value) stick.Value {
 			a := vals(args)
+			r.Snap("function " + name)
 			r.Calls = append(r.Calls, model.Call{Kind: "func", Name: name, Args: reprs(a), Tpl: ctx.Name()})
 			return model.FuncResult(name, a, libStr, libNum, libTruth)
 		}
@@ -111,6 +143,7 @@ func (r *Recorder) Register(env *stick.Env) {
 		name := name
 		env.Filters[name] = func(ctx stick.Context, val stick.Value, args ...stick.Value) stick.Value {
 			a := vals(args)
+			r.Snap("filter " + name)
 			r.Calls = append(r.Calls, model.Call{Kind: "filter", Name: name, Args: append([]string{model.Repr(val)}, reprs(a)...), Tpl: ctx.Name()})
 			return model.FilterResult(name, val, a, libStr, libNum)
 		}
@@ -119,6 +152,7 @@ func (r *Recorder) Register(env *stick.Env) {
 		name := name
 		env.Tests[name] = func(ctx stick.Context, val stick.Value, args ...stick.Value) bool {
 			a := vals(args)
+			r.Snap("test " + name)
 			r.Calls = append(r.Calls, model.Call{Kind: "test", Name: name, Args: append([]string{model.Repr(val)}, reprs(a)...), Tpl: ctx.Name()})
 			return model.TestResult(name, val, a, libStr, libNum)
 		}
